@@ -323,6 +323,7 @@ func emit19(p *interpgen.Program) {
 	if rec.Incons != "" {
 		c.Violate("Debugger/snapshot-inconsistent-with-execution", rec.Incons, p)
 	}
+	stackDataCheck(p, plain, plainMsg, rec) // c19_stackdata.go: what the stack callbacks are handed as their data argument
 	p2sh := p.Flags&interpgen.FBip16 != 0 && p.Flags&interpgen.FGenesis == 0 && len(p.Lock) == 23 && p.Lock[0] == 0xa9 && p.Lock[1] == 0x14 && p.Lock[22] == 0x87
 	if ok, why := lifecycleOK(rec.Trace, p2sh); !ok {
 		c.Violate("Debugger/callback-order", why+": "+strings.Join(rec.Trace, " "), p)
@@ -391,5 +392,7 @@ func runC19() {
 	over = append(over, 0x51, 0x51)
 	emit19((&interpgen.Program{Unlock: []byte{}, Lock: over, Flags: 0, Kind: "lifecycle-stack-limit"}).Fix())
 	c.Stats.Rule = "the interpreter-equivalence programs (opcode x operand matrix sample, grammar-generated programs, P2SH pairs, script-boundary and flow-control programs, both eras, sampled flags), each run six ways: no debugger, a recording debugger, the library's own debug.NewDebugger with a logging handler on every hook (two on some), two debuggers that overwrite every field and every stack byte of every State they are handed (XOR 0xff, and +1 which is not self-inverse) and one that changes the push data of the parsed opcodes in State.Scripts; verdict AND error text, callback sequence and all snapshots must coincide; the complete callback sequence (stack callbacks included) is checked against the lifecycle automaton in Go and again inside Coq (model/DebugStack.v), and its lifecycle part is compared with the model's trace in Coq. distinct = distinct program; one program per shape of the lifecycle grammar and one reaching the combined stack limit exactly and exceeding it by one are added. non-trivial = at least one step completed"
-	runC19Fanout() // c19_fanout.go: the library's own debugger object, tie of model/DebugFanout.v
+	runC19StackTraffic() // c19_stackdata.go: programs moving distinct items between and within both stacks
+	runC19Fanout()       // c19_fanout.go: the library's own debugger object, tie of model/DebugFanout.v
+	runC19StackDataCoq() // c19_stackdata.go: the observed stack events of small runs, tie of model/DebugStackData.v
 }
